@@ -3,7 +3,7 @@
    (configuration flow of pandora.main). *)
 From Coq Require Import ZArith QArith List Bool String.
 From Pandora Require Import Model.Json Model.Checker Model.Pipeline Model.Save Model.SavedCfg Spec.Save
-  Proofs.CheckerP Proofs.SaveP Proofs.SavedCfgP Gen.SavePlan Gen.Schemas.
+  Proofs.CheckerP Proofs.SaveP Proofs.SavedCfgP Proofs.RewriteP Gen.SavePlan Gen.Schemas.
 Import ListNotations.
 
 (* Per-run obligations on the data regenerated from /repo: the write_data_array calls of
@@ -161,6 +161,12 @@ Section Config.
   Qed.
 End Config.
 
+(* What the run writes into the configuration (the `indicator` of each cost_volume_confidence
+   step := the suffix of its name) is idempotent: the configuration saved by a run is not
+   rewritten again when it is replayed, whatever it contains. *)
+Theorem C19_run_rewrites_idempotent : forall cfg, run_rewrites (run_rewrites cfg) = run_rewrites cfg.
+Proof. exact run_rewrites_idem. Qed.
+
 (* D8 (DESIGN section 4), regression witness.  The model of main BEFORE fix e0eac6a stored the
    derived right interval [-max, -min] in the configuration it saved; the input check refuses
    that file (right disp must be None when the left one is a pair).  The repaired main saves a
@@ -202,3 +208,4 @@ Print Assumptions C19_input_section_replays.
 Print Assumptions C19_checked_cfg_fixpoint.
 Print Assumptions C19_saved_cfg_replays_partial.
 Print Assumptions C19_before_fix_refuted.
+Print Assumptions C19_run_rewrites_idempotent.
